@@ -1029,8 +1029,24 @@ func (fx *FnCtx) call(v *ssa.Call, c *ssa.CallCommon) {
 			cpkg = fx.fn.Pkg.Pkg
 		}
 	}
+	// ghost snapshots of the callee are unknown values for the caller
+	ghostVals := map[string]Val{}
+	for _, ls := range fc.Lets {
+		if ls.Type == "" {
+			continue
+		}
+		gt, err := P.resolveType(cpkg, ls.Type)
+		if err != nil {
+			fx.errf("contract of %s: let %s: %v", fc.Key, ls.Name, err)
+			continue
+		}
+		ghostVals[ls.Name] = Val{T: fx.freshConst("callghost_"+ls.Name, P.sorts.sortOf(gt)), GoT: gt}
+	}
 	mkEnv := func(cur, old *State) *Env {
 		env := &Env{P: P, st: cur, old: old, bound: map[string]Val{}, pkg: cpkg}
+		for n, gv := range ghostVals {
+			env.bound[n] = gv
+		}
 		for i, n := range pnames {
 			env.bound[n] = args[i]
 		}
@@ -1097,6 +1113,19 @@ func (fx *FnCtx) call(v *ssa.Call, c *ssa.CallCommon) {
 		for _, m := range fc.Modifies {
 			if callee != nil && mc != nil {
 				if fv := freeVarNamed(callee, m); fv != nil {
+					if mt, isMap := deref(fv.Type()).Underlying().(*types.Map); isMap {
+						for _, pre := range []string{"M$", "MP$", "ML$"} {
+							cn := pre + typeKey(mt)
+							fx.fresh++
+							st.heap[cn] = Term{fmt.Sprintf("Hc_%s_%d", sanitize(cn), fx.fresh), ""}
+							fx.havocNext[st.heap[cn].S] = st.next
+							fx.written[cn] = true
+							if srt, ok := fx.compSort[cn]; ok {
+								_ = st.getHeap(P, cn, srt)
+							}
+						}
+						continue
+					}
 					// cell-level havoc of one captured variable
 					var bind ssa.Value
 					for i, f := range callee.FreeVars {
@@ -1146,6 +1175,16 @@ func (fx *FnCtx) call(v *ssa.Call, c *ssa.CallCommon) {
 		}
 		fx.assume(fx.typeAssume(r, t, st))
 		rs = append(rs, r)
+	}
+	if c.IsInvoke() && fc.Kind == "iface" && fc.Pure && len(rs) == 1 {
+		// a pure interface method is a function of the receiver value and the arguments
+		if sym, _, err := P.ifacePureSym(c.Value.Type(), c.Method.Name()); err == nil {
+			var ats []Term
+			for _, a := range args {
+				ats = append(ats, a.T)
+			}
+			fx.assumeDef(eq(rs[0], app(rs[0].Sort, sym, ats...)))
+		}
 	}
 	setResults(rs)
 	var resVals []Val
